@@ -189,7 +189,7 @@ func run1(t *testing.T, c Case) (res Result) {
 				return
 			}
 			f.Close()
-		case "dropped", "journal", "wal-frames", "wal-clean", "leftover-journal":
+		case "dropped", "journal", "wal-frames", "wal-clean", "leftover-journal", "hot-journal":
 			if cur = mk(pager.RTx{Create: true, NewSize: 5, Final: "DELETE", Outcome: "commit"}, nil); cur == nil {
 				return
 			}
@@ -225,6 +225,28 @@ func run1(t *testing.T, c Case) (res Result) {
 				if cur = mk(pager.RTx{Mods: []uint32{3}, Final: "PERSIST", Outcome: "commit"}, cur); cur == nil {
 					return
 				}
+			case "hot-journal":
+				// an application died in the middle of a transaction: pages already overwritten in the file, a valid journal next to it
+				func() {
+					defer func() {
+						if p := recover(); p != nil {
+							if _, ok := p.(pager.Abort); !ok {
+								panic(p)
+							}
+						}
+					}()
+					wrote := false
+					conn.Before = func(step int, desc string) {
+						if wrote {
+							panic(pager.Abort{Step: step})
+						}
+						if strings.HasPrefix(desc, "db write page") {
+							wrote = true
+						}
+					}
+					conn.RunRTx(pager.RTx{Mods: []uint32{2, 3}, SpillAfter: []int{1}, Final: "DELETE", Outcome: "commit"}, cur)
+				}()
+				conn.Before = nil
 			}
 		}
 		conn.Close()
@@ -261,7 +283,11 @@ func run1(t *testing.T, c Case) (res Result) {
 			}
 		}
 		// Export of the target as it stands = image at the current position.
-		exportEq("before-import", cur)
+		// (with a dead application's journal in place the export rolls it back; to let the import meet it too, the
+		// imports of invalid input into that target are not preceded by an export)
+		if !(c.Target == "hot-journal" && c.Invalid != "") {
+			exportEq("before-import", cur)
+		}
 
 		before := nodeDigest(P, "db")
 		beforeR := nodeDigest(R, "db")
@@ -344,6 +370,12 @@ func run1(t *testing.T, c Case) (res Result) {
 				if after.pos != "nodb" && after.pos != "0000000000000000/0000000000000000" {
 					viol("failed-import-changed-state/absent", "failed import left position %s", after.pos)
 				}
+			} else if c.Target == "hot-journal" {
+				// rolling the dead application's journal back is not a change of the database: position and log must stay, the
+				// committed image is judged below
+				if after.pos != before.pos || after.ltx != before.ltx {
+					viol("failed-import-changed-state/"+c.Target+"/"+coarse(c), "a failed import changed position or log: before %+v after %+v (error was: %v)", before, after, err)
+				}
 			} else if after != before {
 				viol("failed-import-changed-state/"+c.Target+"/"+coarse(c), "a failed import changed the primary: before %+v after %+v (error was: %v)", before, after, err)
 			}
@@ -412,7 +444,7 @@ func TestCheck(t *testing.T) {
 		})
 	}
 	run := vlib.Start("C16", "model_checking")
-	targets := []string{"absent", "empty", "dropped", "journal", "wal-frames", "wal-clean", "leftover-journal"}
+	targets := []string{"absent", "empty", "dropped", "journal", "wal-frames", "wal-clean", "leftover-journal", "hot-journal"}
 	pss := []int{512, 4096}
 	pages := []uint32{1, 2, 3, 257}
 	if run.Thorough() {
